@@ -58,6 +58,10 @@ func (u *SocksChannel) OpenConnection() (net.Conn, error) {
 
 	clientPipe = streams.NewNamedConnection(clientPipe, u.String())
 
+	// The SOCKS server half-closes (CloseWrite) the connection it serves when the target ends;
+	// without it the end of the target's stream would never reach the client side of the pipe
+	serverPipe = &halfClosingConnection{Connection: serverPipe, writer: p1Writer}
+
 	go func() {
 		defer streams.TryClose(serverPipe)
 		if err := server.ServeConn(serverPipe); err != nil {
@@ -66,6 +70,17 @@ func (u *SocksChannel) OpenConnection() (net.Conn, error) {
 	}()
 
 	return clientPipe, nil
+}
+
+// halfClosingConnection lets the writing half of a piped connection be ended on its own
+type halfClosingConnection struct {
+	streams.Connection
+	writer io.Closer
+}
+
+// CloseWrite ends the stream towards the peer; reading from the peer continues
+func (c *halfClosingConnection) CloseWrite() error {
+	return c.writer.Close()
 }
 
 // Channel is a configuration of one of the server that are going to be multiplexed in the connection
